@@ -490,7 +490,9 @@ impl PrunePack {
         IndexPack {
             id: self.id,
             time: self.time.or(Some(time)),
-            size: None,
+            // packs without known blobs (unreferenced packs marked for deletion) must keep their
+            // size, as it cannot be recomputed from the blobs
+            size: self.blobs.is_empty().then_some(self.size),
             blobs: self.blobs,
         }
     }
@@ -504,7 +506,7 @@ impl PrunePack {
         IndexPack {
             id: self.id,
             time: Some(time),
-            size: None,
+            size: self.blobs.is_empty().then_some(self.size),
             blobs: self.blobs,
         }
     }
